@@ -13,8 +13,9 @@ THEOREMS = [("C05", ["C05_roundtrip_null", "C05_roundtrip_file", "C05_any_buffer
                      "C05_contract_inhabited", "C05_loop_before_fix_refuted",
                      "C05_snappy_framing_roundtrip", "C05_snappy_crc_checked", "C05_snappy_short_block",
                      "C05_compressed_block_read_back", "C05_compressed_block_read_back_any_values", "C05_snappy_block_read_back",
-                     "C05_decoder_model_runs", "C05_end_check_before_fix_refuted", "C05_decoder_contract_inhabited", "C05_toy_block_read_back"])]
-PROOF_FILES = ["proofs/ContainerReadProofs.v", "proofs/ContainerProofs.v", "proofs/ContainerFinal.v", "proofs/RoundTripProofs.v", "proofs/CodecLoopProofs.v", "proofs/ContainerHeaderProofs.v", "proofs/ContainerChunkProofs.v", "proofs/DecodeLoopProofs.v", "proofs/DecodeLoopDe.v", "proofs/DecodeLoopToy.v", "props/C05.v"]
+                     "C05_decoder_model_runs", "C05_end_check_before_fix_refuted", "C05_decoder_contract_inhabited", "C05_toy_block_read_back",
+                     "C05_compressed_file_read_back", "C05_snappy_file_read_back"])]
+PROOF_FILES = ["proofs/ContainerReadProofs.v", "proofs/ContainerProofs.v", "proofs/ContainerFinal.v", "proofs/RoundTripProofs.v", "proofs/CodecLoopProofs.v", "proofs/ContainerHeaderProofs.v", "proofs/ContainerChunkProofs.v", "proofs/DecodeLoopProofs.v", "proofs/DecodeLoopDe.v", "proofs/DecodeLoopToy.v", "proofs/DecodeLoopDePrefix.v", "proofs/ContainerCodecProofs.v", "props/C05.v"]
 TRUSTED_BASE = [
     "Coq 8.16.1 kernel; no axioms (Print Assumptions: closed)",
     "hand-written model/Container.v of writer/mod.rs and reader/mod.rs (block compressor abstract in the writer; the reader model is the null codec), tied by the correspondence runs of C15/C16/C17 (per-call outcomes, sink bytes, item sequences)",
@@ -25,7 +26,8 @@ TRUSTED_BASE = [
     "Rust harness (container writer/reader driver, chunk-controlled BufRead)",
 ]
 ASSUMPTIONS = [
-    "proved (DecodeLoopProofs.v, DecodeLoopDe.v): for every streaming decoder meeting stream_decoder_contract ((i) the output of a prefix is a prefix, no error and no early 0 on the complete stream, (iii) only a read returning 0 guarantees the stream was consumed to its end, (iv) bytes behind the end are not consumed), every BufReader capacity >= 1, every chunking of the source (slice or chunk plan) and every read policy of the deserializer: a block laid out as the writer does (complete stream of the encodings of the count values, sync marker) yields exactly the values, the end-of-block check passes -- also with zero-byte datums (decoder never read before the check) and lagging decoders -- and the source is left behind the marker (C05_compressed_block_read_back, with De.de as value decoder; _any_values for any value decoder); snappy blocks read back (C05_snappy_block_read_back); the check of commit 8463ea9^ is refuted on concrete runs (C05_end_check_before_fix_refuted). the contract is inhabited by a concrete lagging decoder (C05_decoder_contract_inhabited). NOT proved: that any REAL decoder meets the contract; the deserializer re-modelled over the BufReader (abstraction above); several blocks in sequence for compressed codecs (one block at a time)",
+    "proved (ContainerCodecProofs.v, model/ContainerCodec.v): WHOLE FILES with compressed blocks -- a file written by the writer model with any block codec function enc (any values, block layout, flushes, closing op, sink schedule) read by the compressed-file reader (cr_open, then per block count / size / BufReader(cap) over the decoder over Take / end check / sync marker) yields the written metadata, exactly the written values, then end of stream, for every decoder meeting the contract on the blocks the session cuts, every capacity >= 1, every read policy, from a slice and from ANY chunking of the source (C05_compressed_file_read_back); the snappy layout as an instance (C05_snappy_file_read_back); computed two-block examples incl. damaged variants (ToyExample)",
+    "proved (DecodeLoopProofs.v, DecodeLoopDe.v): for every streaming decoder meeting stream_decoder_contract ((i) the output of a prefix is a prefix, no error and no early 0 on the complete stream, (iii) only a read returning 0 guarantees the stream was consumed to its end, (iv) bytes behind the end are not consumed), every BufReader capacity >= 1, every chunking of the source (slice or chunk plan) and every read policy of the deserializer: a block laid out as the writer does (complete stream of the encodings of the count values, sync marker) yields exactly the values, the end-of-block check passes -- also with zero-byte datums (decoder never read before the check) and lagging decoders -- and the source is left behind the marker (C05_compressed_block_read_back, with De.de as value decoder; _any_values for any value decoder); snappy blocks read back (C05_snappy_block_read_back); the check of commit 8463ea9^ is refuted on concrete runs (C05_end_check_before_fix_refuted). the contract is inhabited by a concrete lagging decoder (C05_decoder_contract_inhabited). NOT proved: that any REAL decoder meets the contract; the deserializer re-modelled over the BufReader (abstraction above); the per-call pretend_eof logic of deserialize_seed_next for compressed files (the whole-file reader of model/ContainerCodec.v works at block granularity)",
     "proved (CodecLoopProofs.v): for every library meeting stream_contract_valid, every input, every output buffer of length >= 1 left by previous blocks (empty: START >= 1), each of the three encode loops (deflate, bzip2, xz status classifications as in the crate) ends with StreamEnd and a true assertion -- no Err, no panic --, within |x| + obound x + 1 library calls, and hands a valid complete stream for x to the block writer; under stream_contract (the stream is a function enc of the input) exactly enc x; final buffer length = initial * 2^(calls-1); if 'not finished' is only answered with a full window: calls = 1 or initial * 2^(calls-2) <= |stream|; the classifications before ef7c759 are refuted; the contract is inhabited; snappy framing round trips and rejects any other trailer. NOT modelled: usize overflow of the doubling, allocation failure, the zstandard/snappy libraries (one call each)",
     "observed by the run, reported in coverage.notes: miniz_oxide at level 1 does not meet the stronger contract (its stream depends on where the output windows ended; both streams decode) -- only stream_contract_valid applies to it",
     "proved: write-then-read = identity for the null codec -- every list of conforming values, every approx_block_size, every interleaving of serialize / push / finish_block, closing by finish_block, into_inner or drop, every sink schedule on which the calls return Ok; any partition into blocks reads back (C05_any_partition); the whole file incl. the header (C05_roundtrip_file: cr_open returns the metadata written) and through a BufRead with any chunking (C05_any_buffered_reader)",
